@@ -222,6 +222,16 @@ func (l *Lexer) shiftDOCTYPEText() []byte {
 				l.r.Move(1)
 			}
 			continue
+		} else if inBrackets && !inString && c == '<' && l.r.Peek(1) == '?' {
+			// a processing instruction in the internal subset
+			l.r.Move(2)
+			for {
+				if c := l.r.Peek(0); c == 0 || c == '?' && l.r.Peek(1) == '>' {
+					break
+				}
+				l.r.Move(1)
+			}
+			continue
 		} else if (c == '[' || c == ']') && !inString {
 			inBrackets = (c == '[')
 		} else if c == '>' && !inString && !inBrackets {
